@@ -123,7 +123,7 @@ SIZE_LATTICE = ["1", "6400", "6800", "7200", "9000", "12000", None]
 
 _pads = "\n".join("  q%d := 0" % i for i in range(PAD))
 # the catch clauses run at depth 0 only: a catch clause that runs while the value stack is more than half full
-# writes outside the stack (finding `catch-clause-above-half-stack`, fixes/C15-pop-skip-one-out-of-bounds.patch)
+# wrote outside the stack before fixes/C15-pop-skip-one-out-of-bounds.patch (key generator-next-at-depth:catch-clause-above-half-stack)
 PRELUDE_DEPTH = '''def nb(g: Generator[Int, String]): Int ! String | :stop_iteration
 %s
   try g.next
@@ -810,8 +810,9 @@ def run_batch(ctx, elk, m, cases, tag, flags, st):
         if (cid, pool) in res2:
             rc2, out2, cls2 = res2[(cid, pool)]
             dummy = dict(st, sections=0, distinct=set(), sec_counts={})
-            if compare(fn, expected[cid], out2, cls2, dummy, pool) is None:
-                key = "suspend:closure-captured-local-diverges"
+            bad2 = compare(fn, expected[cid], out2, cls2, dummy, pool)
+            if bad2 is None or sec_rank(fn, bad2[0], bad2[1]) > sec_rank(fn, sec, j):
+                key = "suspend:closure-captured-local-diverges"     # this section agrees once the closure is gone
         st["mismatches"] += 1
         case = sx_str(fn[:5] + [fn[5 + j]])
         cfg = cfgs[(cid, pool)]
@@ -829,6 +830,16 @@ def run_batch(ctx, elk, m, cases, tag, flags, st):
             SEC_NAME[sec], case, where, g if g is not None else "<nothing: %s>" % cls, e),
             stream=STREAM, case=case + " ; " + where, impl="\n".join(g) if g is not None else cls + ": " + out[-400:],
             model="\n".join(e), oracle="the three wrappings must print what the proved reference semantics prints (%s)" % where)
+
+
+def sec_rank(fn, sec, j):
+    """position of a section in the program's output"""
+    nargs = len(fn) - 5
+    order = [("P", i) for i in range(nargs)]
+    for i in range(nargs):
+        order += [("B", i), ("F", i), ("G", i)]
+    order += [("A", i) for i in range(nargs)] + [("D", 0), ("M", 0)]
+    return order.index((sec, j))
 
 
 def program_no_closures(fn, nn, cfg=None):
@@ -905,11 +916,10 @@ CATCH_KEY = "generator-next-at-depth:catch-clause-above-half-stack"
 
 def catch_at_depth(ctx, elk):
     """`g.next` inside do/catch :stop_iteration (the prelude's nx) at EVERY depth below the growth threshold of the
-    default stack: the catch clause itself runs deep.  (Sections D keep their catch clauses at depth 0, so that
-    this finding does not mask what they look for.)  Also replays the minimised witness of the corpus."""
-    cap = slots_of(None)
-    top = 7 * cap // (10 * FRAME)
-    src = PRELUDE + '''def *g1(x0: Int): Int ! String
+    stack, for four stack sizes: the catch clause itself runs deep.  (Sections D keep their catch clauses at depth 0, so
+    that this finding does not mask what they look for.)  Also replays the minimised witness of the corpus.
+    (Before fixes/C15-pop-skip-one-out-of-bounds.patch the clause wrote beyond the stack once sp > capacity / 2.)"""
+    tmpl = PRELUDE + '''def *g1(x0: Int): Int ! String
   yield x0
   if x0 < 0
     throw "t1"
@@ -935,25 +945,31 @@ while d <= %d
   d += 1
 end
 println("# DONE")
-''' % top
-    exp = ["D %d V 3|V 4|S V -1|E t1|S" % d for d in range(top + 1)] + ["# DONE"]
+'''
     wit = open(os.path.join(vlib.ROOT, "corpus", "C15.catchdepth.elk")).read()
     wexp = ["D %d E boom" % d for d in range(117)] + ["# DONE"]
-    res = vlib.run_programs(elk, [("catchdepth", src), ("catchdepth_witness", wit)], os.path.join(ctx.workdir, "catchdepth"),
-                            timeout=120, env={"GOMAXPROCS": "4"})
     n = 0
-    for name, e in (("catchdepth", exp), ("catchdepth_witness", wexp)):
-        rc, out, cls = res[name]
-        got = [l for l in out.splitlines() if l.startswith(("D ", "# DONE"))]
-        k = next((i for i in range(min(len(got), len(e))) if got[i] != e[i]), min(len(got), len(e)))
-        n += k
-        if got != e or cls != "ok":
-            ctx.fail(CATCH_KEY, "%s: do/catch around a throw (`g.next` at the end of the iteration / a generator body's error / a "
-                     "plain throw) at recursion depth %d of the default value stack (%d slots): printed %s (%s), expected %s"
-                     % (name, k, cap, got[k:k + 1], cls if cls == "ok" else cls + ": " + panic_class(out), e[k:k + 1]),
-                     stream=STREAM, case="corpus/C15.catchdepth.elk" if name.endswith("witness") else "catch_at_depth(): depth %d" % k,
-                     impl="\n".join(got[max(0, k - 1):k + 1]) + "\n" + out[-300:], model="\n".join(e[max(0, k - 1):k + 1]),
-                     oracle="a generator signals the end of iteration / its body's error at any depth of the caller")
+    for size in (None, "36000", "48000", "96000"):
+        cap = slots_of(size)
+        top = 7 * cap // (10 * FRAME)
+        exp = ["D %d V 3|V 4|S V -1|E t1|S" % d for d in range(top + 1)] + ["# DONE"]
+        progs = [("catchdepth", tmpl % top, exp)] + ([("catchdepth_witness", wit, wexp)] if size is None else [])
+        env = {"GOMAXPROCS": "4"}
+        if size is not None:
+            env["ELK_INIT_VALUE_STACK_SIZE"] = size
+        res = vlib.run_programs(elk, [(a, b) for a, b, _ in progs], os.path.join(ctx.workdir, "catchdepth_s%s" % size), timeout=120, env=env)
+        for name, _, e in progs:
+            rc, out, cls = res[name]
+            got = [l for l in out.splitlines() if l.startswith(("D ", "# DONE"))]
+            k = next((i for i in range(min(len(got), len(e))) if got[i] != e[i]), min(len(got), len(e)))
+            n += k
+            if got != e or cls != "ok":
+                ctx.fail(CATCH_KEY, "%s: do/catch around a throw (`g.next` at the end of the iteration / a generator body's error / a "
+                         "plain throw) at recursion depth %d, value stack of %d slots (ELK_INIT_VALUE_STACK_SIZE %s): printed %s (%s), expected %s"
+                         % (name, k, cap, size or "unset", got[k:k + 1], cls if cls == "ok" else cls + ": " + panic_class(out), e[k:k + 1]),
+                         stream=STREAM, case="corpus/C15.catchdepth.elk" if name.endswith("witness") else "catch_at_depth(): size %s depth %d" % (size, k),
+                         impl="\n".join(got[max(0, k - 1):k + 1]) + "\n" + out[-300:], model="\n".join(e[max(0, k - 1):k + 1]),
+                         oracle="a generator signals the end of iteration / its body's error at any depth of the caller")
     return n
 
 
@@ -1001,7 +1017,7 @@ def run(ctx):
         "the depth-free model prints; growth itself is not observable from Elk code, the sweep is laid out (3-slot frames, "
         "26 padding locals under the resume, strides of 5/8/11 frames) so that a resume is the operation that crosses the "
         "threshold. catch_at_depth(): do/catch around `next` at every depth below the first threshold of the default stack "
-        "(known finding generator-next-at-depth:catch-clause-above-half-stack, an out-of-bounds write of POP_2_SKIP_ONE; "
+        "(re-finds the fixed defect generator-next-at-depth:catch-clause-above-half-stack, an out-of-bounds write of POP_2_SKIP_ONE, fixes/C15-pop-skip-one-out-of-bounds.patch; "
         "implementation-level oracle only, the model has no catch clauses).")
     ctx.trusted_base += [
         "Python generator/printer of the three wrappings and the section parser (checks/C15.py); OCaml driver ocaml/C15/main.ml",
